@@ -156,6 +156,38 @@ def lower_std(c: int) -> int:
     return c
 
 
+def is_space_std(c: int) -> bool:
+    """python mirror of Operon.Gates.Rx.isSpaceStd"""
+    return 9 <= c <= 13 or 28 <= c <= 32 or c in (0x85, 0xA0, 0x1680, 0x2028, 0x2029, 0x202F, 0x205F, 0x3000) \
+        or 0x2000 <= c <= 0x200A
+
+
+def is_word_std(c: int) -> bool:
+    """python mirror of Operon.Gates.Rx.isWordStd"""
+    return (0x30 <= c <= 0x39 or 0x41 <= c <= 0x5A or c == 0x5F or 0x61 <= c <= 0x7A
+            or c in (0xAA, 0xB2, 0xB3, 0xB5, 0xB9, 0xBA) or 0xBC <= c <= 0xBE
+            or (0xC0 <= c <= 0xFF and c not in (0xD7, 0xF7))
+            or (0x391 <= c <= 0x3A9 and c != 0x3A2) or 0x3AC <= c <= 0x3CE or 0x400 <= c <= 0x481
+            or 0x3041 <= c <= 0x3096 or 0x30A1 <= c <= 0x30FA or 0x4E00 <= c <= 0x9FFF)
+
+
+def rx_tables_differ(ch: str, literals: str) -> list:
+    """where the model's character tables (Operon.Gates.Rx.stdEnv) and the real `re` disagree on the code point `ch`:
+    the classes \\d \\s \\w and IGNORECASE equality with each literal of the shipped patterns"""
+    c = ord(ch)
+    out = []
+    if bool(_re.fullmatch(r"\s", ch)) != is_space_std(c):
+        out.append("space")
+    if bool(_re.fullmatch(r"\w", ch)) != is_word_std(c):
+        out.append("word")
+    if bool(_re.fullmatch(r"\d", ch)) != (0x30 <= c <= 0x39):
+        out.append("digit")
+    for a in literals:
+        if bool(_re.fullmatch(_re.escape(a), ch, _re.IGNORECASE)) != (lower_std(ord(a)) == lower_std(c)):
+            out.append("ceq:" + a)
+    return out
+
+
 # --------------------------------------------------------------------------------------------------------------
 # recording wrappers (installed on the module attributes `re` / `json` of the two modules under test)
 # --------------------------------------------------------------------------------------------------------------
@@ -420,6 +452,12 @@ class C10(Prop):
         "when the signature matches them standing alone) and their case variants / separated embeddings are ordinary "
         "cases - a shipped regex that fails on one is a VIOLATION with that input; only regexes a user wrote (custom, "
         "learned, imported) keep the hypothesis treatment",
+        "shipped regex signatures inside the model: their parse trees come from `re`'s own parser on every run "
+        "(Operon/Gen/GatesRegex.lean), Operon.Gates.Rx gives them a meaning (backtracking matcher, character tables "
+        "stdEnv); the driver re-evaluates every recorded call of a shipped regex on inputs of <= 600 code points with "
+        "that matcher and the result must equal what the real compiled pattern returned (a difference is a "
+        "correspondence diff); the character tables are compared with the real `re` at start-up on every code point "
+        "of the generators' text material",
         "sha256[:16] of the UTF-8 encoding is treated as injective on the strings explored",
         "json.loads raises only JSONDecodeError, other ValueError, or RecursionError (anything else is `other`)",
         "JSONValidator.max_depth is kept <= 64 in generated configurations so that `_measure_depth` itself stays far "
@@ -531,6 +569,17 @@ class C10(Prop):
             if not self.inst_of[(pat, rx)]:
                 self.shipped_without_instance.append(pat)
         self.acheck["shipped_signatures_without_instance"] = len(self.shipped_without_instance)
+        # the regex model's character tables against the real `re`, on every code point of the text material (generated
+        # inputs are made of this material, separators and digits) and every literal of the shipped regexes
+        material = "".join(BENIGN + HOSTILE + CUSTOM_SUB + ATTACK_CORPUS + [i for v in RX_INSTANCES.values() for i in v]
+                           + [i for v in self.inst_of.values() for i in v]) + SEPS + "0123456789#tw "
+        lits = "".join(sorted({ch for tok in self.mb_builtin + self.in_builtin if tok.endswith("/1")
+                               for ch in self._parse_sig(tok)[0] if ord(ch) < 128}))
+        for ch in sorted(set(material)):
+            d = rx_tables_differ(ch, lits)
+            if d:
+                raise AssertionError(f"regex model tables differ from re on U+{ord(ch):04X}: {d}")
+        self.acheck["regex_table_code_points_checked"] = len(set(material))
         for t in BENIGN + HOSTILE + CUSTOM_SUB + ATTACK_CORPUS + [i for v in RX_INSTANCES.values() for i in v]:
             bad = [c for c in t if ord(c) in self.lower_exc]
             if bad:
@@ -540,9 +589,13 @@ class C10(Prop):
         from ..extract import e5_gates
         text = e5_gates.generate(REPO, self.MB, self.IN, self.clock)
         changed = write_if_changed(LEAN / "Operon" / "Gen" / "GatesConsts.lean", text)
+        # parse trees of the shipped regex signatures (from `re`'s own parser, flags from the compiled objects)
+        rtext = e5_gates.generate_regex(self.MB, self.IN)
+        rchanged = write_if_changed(LEAN / "Operon" / "Gen" / "GatesRegex.lean", rtext)
         from ..extract import py2lean_gates
-        return [{"id": "E5-gates", "facts_changed": bool(changed),
-                 "facts_unrecognised": text.count(":= none")}] + py2lean_gates.run(REPO, LEAN, write_if_changed, self.MB, self.IN)
+        return [{"id": "E5-gates", "facts_changed": bool(changed) or bool(rchanged),
+                 "facts_unrecognised": text.count(":= none") + rtext.count(".unsupported")}] \
+            + py2lean_gates.run(REPO, LEAN, write_if_changed, self.MB, self.IN)
 
     # ----------------------------------------------------------------------------------------------------------
     # helpers
